@@ -54,7 +54,7 @@ def run(P, rep, tier):
     # are part of this check as well (rule ids C01.R1/R2/R3/R6)
     from . import c01
 
-    for fn in (c01.r1_children, c01.r2_delete_marker, c01.r3_create, c01.r4_markers, c01.r6_move_copy, c01.r7_snapshot_before_mutation, c01.r8_resolution_owner, c01.r9_handle_provenance, c01.r10_copy_into_patch_callers):
+    for fn in (c01.r1_children, c01.r2_delete_marker, c01.r3_create, c01.r4_markers, c01.r6_move_copy, c01.r7_snapshot_before_mutation, c01.r8_resolution_owner, c01.r9_handle_provenance, c01.r10_copy_into_patch_callers, c01.r12_raw_containers_stay_inside):
         rep.attempt(fn, P, rep, ctx)
     # copy semantics (what is copied, attribute switch, children) are part of the driver agreement: the IH5 copy is
     # implemented in h5_copy_from_to, the HDF5 one by h5py (rule ids C05.R4)
@@ -77,6 +77,12 @@ def run(P, rep, tier):
     rep.attempt(c03.r3_name_language, P, rep, ctx)
     # an exception inside `with container:` must not roll the session back on one driver only
     rep.attempt(c03.r7_discard_is_the_users_call, P, rep, ctx)
+    # membership / listings are answered by the wrapper layer itself, segment by segment, on both drivers (C08.R3 / R6): the raw
+    # containers differ in how they answer for paths that run through a dataset
+    from . import c08 as _c08
+
+    rep.attempt(_c08.r3_listings, P, rep, ctx)
+    rep.attempt(_c08.r6_membership, P, rep, ctx)
     rep.floor("C09.R1", 45, "raw uses")
     rep.floor("C09.R2", 40)
     rep.floor("C09.R3", 3)
